@@ -127,6 +127,9 @@ class FPContext(StandardBaseContext):
     cosh = staticmethod(math2.cosh)
     sinh = staticmethod(math2.sinh)
     tanh = staticmethod(math2.tanh)
+    acosh = staticmethod(math2.acosh)
+    asinh = staticmethod(math2.asinh)
+    atanh = staticmethod(math2.atanh)
     gamma = staticmethod(math2.gamma)
     rgamma = staticmethod(math2.rgamma)
     fac = factorial = staticmethod(math2.factorial)
